@@ -343,6 +343,60 @@ def suite_fonts(ctx, res, n):
     res.sample({"suite": "fonts", "case_id": case["id"], "codepoints": case["codepoints"], "config": case["config"]})
 
 
+def suite_many_ligatures(ctx, res, n_sets):
+    """The real `features.generate_fea` on LARGE sets (250-420 sequences, prefix families of 2-4 members: s, s+ZWJ+x, s+ZWJ+y, ...), compiled by
+    feaLib onto a bare font that has exactly the glyphs `glyph_name` names: every sequence must still shape to exactly its own glyph (own shaper:
+    subtables in order, first matching ligature wins), whatever number of rules the feature holds — nothing may depend on the size of the set."""
+    from fontTools.fontBuilder import FontBuilder
+    from fontTools.feaLib.builder import addOpenTypeFeaturesFromString
+    from nanoemoji import features
+    from nanoemoji.glyph import glyph_name
+
+    rng = ctx.rng
+    for k in range(n_sets):
+        target = rng.randint(250, 420)
+        seqs, base = set(), 0x1F600
+        while len([s for s in seqs if len(s) > 1]) < target:
+            a, b = base, rng.choice([0x1F3FB, 0x1F3FC, 0x1F3FD, 0xFE0F])
+            base += 1
+            fam = [(a, b)] + [(a, b, 0x200D, x) for x in rng.sample([0x1F33E, 0x1F373, 0x1F393, 0x2764, 0x1F52C], rng.choice([1, 1, 2, 3]))]
+            if rng.random() < 0.2:
+                fam.append(fam[-1] + (0xFE0F,))
+            seqs.update(fam)
+            seqs.add((a,))
+        cps = sorted({cp for s in seqs for cp in s})
+        names = [".notdef"] + [glyph_name((cp,)) for cp in cps] + [glyph_name(s) for s in sorted(seqs) if len(s) > 1]
+        fb = FontBuilder(1000, isTTF=True)
+        fb.setupGlyphOrder(names)
+        fb.setupCharacterMap({cp: glyph_name((cp,)) for cp in cps})
+        fb.setupGlyf({nm: __import__("fontTools.ttLib.tables._g_l_y_f", fromlist=["Glyph"]).Glyph() for nm in names})
+        fb.setupHorizontalMetrics({nm: (1000, 0) for nm in names})
+        fb.setupHorizontalHeader(ascent=800, descent=-200)
+        fb.setupNameTable({"familyName": "L", "styleName": "R"})
+        fb.setupOS2()
+        fb.setupPost()
+        font = fb.font
+        fea = features.generate_fea(sorted(seqs))
+        try:
+            addOpenTypeFeaturesFromString(font, fea)
+        except Exception as e:  # noqa
+            res.add_cex("the feature file generate_fea writes for a large set does not compile: " + str(e)[:200], {"n": len(seqs)}, {"site": "c04-many-fea", "k": k})
+            continue
+        n_rules = len([s for s in seqs if len(s) > 1])
+        res.count(key=("many-lig", k, n_rules), nontrivial=True)
+        res.stat("many-lig:rules", n_rules)
+        subtables = sum(len(subs) for subs in shaper._ligature_lookups(font))
+        res.stat(f"many-lig:subtables={subtables}")
+        for s in sorted(seqs):
+            if len(s) == 1:
+                continue
+            got = shaper.shape(font, list(s))
+            if got != [glyph_name(s)]:
+                res.add_cex(f"in a set of {n_rules} sequences, {' '.join('%04x' % c for c in s)} shapes to {got} instead of its own glyph {glyph_name(s)}",
+                            {"sequence": list(s), "shaped": got, "rules": n_rules, "subtables": subtables}, {"site": "c04-many-lig", "k": k})
+                break
+
+
 def run(ctx, res):
     nano.init()
     res.rule = ("names: sequences of length 1..14 over ZWJ/VS16/skin tones/ASCII letters/digits/arbitrary scalars incl. >63-char names; file names in "
@@ -350,11 +404,13 @@ def run(ctx, res):
                 "formats round-robin, keep_glyph_names on/off, viewBox aspect 1:4..2:1; non-trivial = sequence length > 1 / >= 2 sources")
     suite_names(ctx, res, ctx.budget(1500, 30000))
     suite_fonts(ctx, res, ctx.budget(39, 780))
+    suite_many_ligatures(ctx, res, ctx.budget(2, 12))
 
 
 def search(ctx, res, broken):
     suite_names(ctx, res, 20000)
     suite_fonts(ctx, res, 130)
+    suite_many_ligatures(ctx, res, 6)
 
 
 def replay(ctx, res, payload):
